@@ -237,9 +237,10 @@ class Ctx:
                 raise HarnessError("nondeterministic verdict: case %s violated in exploration but not when replayed alone (%s)"
                                    % (json.dumps(case)[:400], res))
             detail = res.get("detail")
-        os.makedirs(os.path.join(VERIF, "replays"), exist_ok=True)
+        rdir = os.environ.get("VERIF_REPLAY_DIR", "replays")
+        os.makedirs(os.path.join(VERIF, rdir), exist_ok=True)
         self.nreplay += 1
-        path = os.path.join("replays", "%s-%d.json" % (self.pid, self.nreplay))
+        path = os.path.join(rdir, "%s-%d.json" % (self.pid, self.nreplay))
         json.dump({"property": self.pid, "signature": sig, "what": what, "case": case, "detail": detail},
                   open(os.path.join(VERIF, path), "w"), indent=1)
         self.new_violations.append((sig, what, path))
@@ -274,8 +275,9 @@ class Ctx:
             "violations": len(self.new_violations),
         }
         ev["coverage"].update(self.extra)
-        os.makedirs(os.path.join(VERIF, "evidence"), exist_ok=True)
-        json.dump(ev, open(os.path.join(VERIF, "evidence", self.pid + ".json"), "w"), indent=1)
+        edir = os.path.join(VERIF, os.environ.get("VERIF_EVIDENCE_DIR", "evidence"))
+        os.makedirs(edir, exist_ok=True)
+        json.dump(ev, open(os.path.join(edir, self.pid + ".json"), "w"), indent=1)
         print("[%s] tier=%s states=%d transitions=%d executions=%d nontrivial=%d outcomes=%d exhaustive=%s wall=%.1fs violations=%d known=%d"
               % (self.pid, self.tier, self.states, self.transitions, self.evaluations, self.nontrivial, len(self.outcomes),
                  self.exhaustive, wall, len(self.new_violations), len(self.known_hits)), flush=True)
